@@ -2767,10 +2767,12 @@ class Parameters:
             self_.update(dict(params, **triggers))
         finally:
             self_._TRIGGER = TRIGGER
-            self_._events += events
-            self_._state_watchers += [
-                w for w in watchers
-                if not any(w is sw for sw in self_._state_watchers)
+            # what was queued before comes first, so that the most recent
+            # event of a parameter is the one delivered by the flush
+            self_._events = events + self_._events
+            self_._state_watchers = watchers + [
+                w for w in self_._state_watchers
+                if not any(w is sw for sw in watchers)
             ]
 
     def _update_event_type(self_, watcher, event, triggered):
